@@ -1168,3 +1168,11 @@ impl<T: Actor> Clone for ActorWeak<T> {
         }
     }
 }
+
+/// Verification hook, compiled only with `--cfg rsactor_verif`: runs the private park/unpark executor
+/// behind `blocking_ask(msg, None)` on a caller-supplied future. Adds no behaviour.
+#[cfg(rsactor_verif)]
+#[doc(hidden)]
+pub fn __verif_block_on_parked<F: std::future::Future>(fut: F) -> F::Output {
+    block_on_parked(fut)
+}
